@@ -233,6 +233,11 @@ func TestProp(t *testing.T) {
 			})
 		})
 		if lastFail != nil {
+			min, mv, mruns := Minimize(t, lastFail, def, lastViol.Class(), known, 40*time.Second)
+			ws.ShrinkRuns += mruns
+			if mv.Rule != "" {
+				lastFail, lastViol = min, mv
+			}
 			ws.Violation = &lastViol
 			dir := os.Getenv("KAISIM_REPLAY_DIR")
 			if dir == "" {
